@@ -728,6 +728,107 @@ def compare_model(cases, res):
             res.disagreements.append({'stream': stream, 'case': c, 'model': repr(model)[:600], 'real': repr(want)[:600]})
 
 
+# --------------------------------------------------------------------------
+# statement mode of TemplateASTTransformer: Lean xformS / Python's scoping rule (specModule, freeGlobals)
+
+def _sym_tree(t):
+    """canonical per-scope summary of a symtable: (kind, name, names referenced as globals, children)"""
+    kind = 'module' if t.get_type() == 'module' else ('class' if t.get_type() == 'class' else 'function')
+    if kind == 'module':
+        gl = sorted(s.get_name() for s in t.get_symbols() if s.is_referenced())
+    else:
+        gl = sorted(s.get_name() for s in t.get_symbols() if s.is_referenced() and s.is_global())
+    return [kind, t.get_name(), gl, sorted(_sym_tree(c) for c in t.get_children())]
+
+
+def _canon_tree(w):
+    """the Lean ScopeTree answer in the same canonical form (names de-duplicated and sorted)"""
+    kind, name, gl, ch = w
+    return [str(kind), str(name), sorted(set(str(g) for g in gl)), sorted(_canon_tree(c) for c in ch)]
+
+
+def _strip_implicit(t):
+    """symtable artefacts that are no name loads of the program: the implicit `.0` parameter never is
+    referenced as a global; `__class__` is added as a *free* variable of methods using super()"""
+    kind, name, gl, ch = t
+    return [kind, 'top' if kind == 'module' else name, gl, sorted(_strip_implicit(c) for c in ch)]
+
+
+STMT_OUTSIDE = ('Unsupported', 'Unmodelled', 'UnsupportedStmt', 'Global')
+
+
+def statement_programs(cases):
+    """(case, tree, wire of the body) of every exec-mode case that is inside the modelled syntax"""
+    out = []
+    for c in cases:
+        if c['mode'] != 'exec':
+            continue
+        try:
+            tree = ast.parse(c['src'])
+            w = [G.to_wire(st) for st in tree.body]
+        except (SyntaxError, ValueError, RecursionError, MemoryError):
+            continue
+        out.append((c, tree, w))
+    return out
+
+
+def compare_xformS(cases, res):
+    """four streams on statement programs:
+    xformS          Lean model of TemplateASTTransformer (scope stack over statements) vs the real transformer
+    specS           Python's scoping rule (Lean specModule, theorem xformS_eq_spec) vs the real transformer,
+                    on programs inside okModule
+    unxformS        the rewriting undone in the model gives back the program (theorem unxfS_xformS)
+    freeGlobals     Lean per-scope global references by Python's rule vs CPython's symtable (no genshi involved)"""
+    import symtable
+    from genshi.template.eval import TemplateASTTransformer
+    lines, meta = [], []
+    for c, tree, w in statement_programs(cases):
+        if has_atom(w, STMT_OUTSIDE):
+            res.count('xformS:outside-syntax')
+            continue
+        try:
+            real = [G.to_wire(st) for st in TemplateASTTransformer().visit(copy.deepcopy(tree)).body]
+        except RecursionError:
+            res.count('xformS:recursion-limit')
+            continue
+        try:
+            sym = _strip_implicit(_sym_tree(symtable.symtable(c['src'], '<s>', 'exec')))
+        except (SyntaxError, ValueError, RecursionError):
+            sym = None
+        for verb in ('xformS', 'specS', 'unxformS', 'scopes'):
+            lines.append(proto.line(Atom('C13'), Atom(verb), w))
+            meta.append((verb, c, w, real, sym))
+    answers = proto.run_lines(lines)
+    for (verb, c, w, real, sym), ans in zip(meta, answers):
+        if ans == 'unmodelled':
+            res.count(verb + ':unmodelled')
+            continue
+        if ans == 'outside':
+            res.count(verb + ':outside-domain')
+            continue
+        model = proto.dec(ans)
+        res.streams[verb] = res.streams.get(verb, 0) + 1
+        if verb in ('xformS', 'specS'):
+            changed = model[1] != w
+            res.count('%s:%s' % (verb, 'rewrites' if changed else 'identity'))
+            if changed and verb == 'xformS':
+                res.nontrivial.add('xformS:' + (feature_key(c) or ''))
+            if model[1] != real:
+                res.disagreements.append({'stream': verb, 'case': c, 'model': repr(model[1])[:900], 'real': repr(real)[:900]})
+        elif verb == 'unxformS':
+            res.count('unxformS:ok')
+            if model[1] != w:
+                res.disagreements.append({'stream': verb, 'case': c, 'model': repr(model[1])[:900], 'real': repr(w)[:900]})
+        else:
+            if sym is None:
+                res.count('scopes:no-symtable')
+                continue
+            spec = _canon_tree(model[1])
+            res.count('scopes:ok')
+            if spec != sym:
+                res.disagreements.append({'stream': 'freeGlobals-vs-symtable', 'case': c, 'model': repr(spec)[:900], 'real': repr(sym)[:900]})
+
+
 def shard(arg):
     import random
     seed, idx, n_expr, n_stmt, files = arg
